@@ -248,7 +248,7 @@ impl<'de> de::Deserializer<'de> for FieldValueDeserializer {
             FieldValue::Float64(v) => visitor.visit_f64(v),
             FieldValue::String(v) => visitor.visit_str(&v),
             FieldValue::Boolean(v) => visitor.visit_bool(v),
-            FieldValue::Enum(_) => todo!(),
+            FieldValue::Enum(v) => visitor.visit_str(&v),
             FieldValue::List(v) => visitor.visit_seq(v.to_vec().into_deserializer()),
         }
     }
